@@ -100,3 +100,151 @@ pub fn add_exponents(existing: &str) -> String {
     }
     serde_json::to_string_pretty(&v).unwrap()
 }
+
+// ---------------------------------------------------------------------------
+// structurally odd RSA private keys: well-formed PKCS#1 DER whose numbers are not what an
+// honest generator produces.  Whether a decoder accepts them is its business; what it must not
+// do is panic, now or later when the accepted key is displayed, identified or used.
+
+fn der_len(n: usize, out: &mut Vec<u8>) {
+    if n < 128 {
+        out.push(n as u8);
+    } else {
+        let b = n.to_be_bytes();
+        let skip = b.iter().take_while(|x| **x == 0).count();
+        out.push(0x80 | (b.len() - skip) as u8);
+        out.extend_from_slice(&b[skip..]);
+    }
+}
+
+fn der_uint(v: &rsa::BigUint, out: &mut Vec<u8>) {
+    let mut b = v.to_bytes_be();
+    if b.is_empty() {
+        b.push(0);
+    }
+    if b[0] & 0x80 != 0 {
+        b.insert(0, 0);
+    }
+    out.push(0x02);
+    der_len(b.len(), out);
+    out.extend_from_slice(&b);
+}
+
+/// RSAPrivateKey ::= SEQUENCE { version 0, n, e, d, p, q, dP, dQ, qInv }
+pub fn pkcs1_private_der(n: &rsa::BigUint, e: &rsa::BigUint, d: &rsa::BigUint, p: &rsa::BigUint, q: &rsa::BigUint, dp: &rsa::BigUint, dq: &rsa::BigUint, qinv: &rsa::BigUint) -> Vec<u8> {
+    let mut body = Vec::new();
+    der_uint(&rsa::BigUint::from(0u8), &mut body);
+    for v in [n, e, d, p, q, dp, dq, qinv] {
+        der_uint(v, &mut body);
+    }
+    let mut out = vec![0x30];
+    der_len(body.len(), &mut out);
+    out.extend_from_slice(&body);
+    out
+}
+
+/// (shape name, PKCS#1 DER) derived from pool key `i` of the given modulus size (2048 / 4096)
+pub fn odd_private_keys(bits: usize, i: usize) -> Vec<(String, Vec<u8>)> {
+    use rsa::pkcs1::DecodeRsaPrivateKey;
+    use rsa::traits::{PrivateKeyParts, PublicKeyParts};
+    use rsa::BigUint;
+    let der = if bits == 2048 { rsa2048(i) } else { rsa4096(i) };
+    let Ok(k) = rsa::RsaPrivateKey::from_pkcs1_der(&der) else { return Vec::new() };
+    let (n, e, d) = (k.n().clone(), k.e().clone(), k.d().clone());
+    let (p, q) = (k.primes()[0].clone(), k.primes()[1].clone());
+    let one = BigUint::from(1u8);
+    let zero = BigUint::from(0u8);
+    let three = BigUint::from(3u8);
+    let dp = &d % (&p - &one);
+    let dq = &d % (&q - &one);
+    // modular inverse by Fermat is not available for composite moduli: use the pool key's own qInv
+    let qinv = k.crt_coefficient().unwrap_or_else(|| one.clone());
+    let mut out: Vec<(String, Vec<u8>)> = Vec::new();
+    let mut add = |name: &str, n: &BigUint, e: &BigUint, d: &BigUint, p: &BigUint, q: &BigUint| {
+        let dp = if p > &one { d % (p - &one) } else { zero.clone() };
+        let dq = if q > &one { d % (q - &one) } else { zero.clone() };
+        out.push((format!("rsa-odd#{name}"), pkcs1_private_der(n, e, d, p, q, &dp, &dq, &qinv)));
+    };
+    let _ = (&dp, &dq);
+    // a "prime" equal to 1 (n = 1 * q)
+    add("prime1-is-one", &q_times(&one, &n), &e, &d, &one, &n);
+    add("prime2-is-one", &n, &e, &d, &n, &one);
+    add("prime-is-zero", &n, &e, &d, &zero, &q);
+    // both "primes" equal (n = p^2, padded to the right size by using p of the other half)
+    add("primes-equal", &(&p * &p), &e, &d, &p, &p);
+    // composite "primes" sharing a factor: p' = 3a, q' = 3b with n' = p' q' of the original size
+    {
+        let a = &p / &three;
+        let b = &q / &three;
+        let p2 = &a * &three;
+        let q2 = &b * &three;
+        let n2 = &p2 * &q2;
+        // d with d*e = 1 mod lcm(p2-1, q2-1) when it exists
+        let l = lcm(&(&p2 - &one), &(&q2 - &one));
+        if let Some(d2) = mod_inverse(&e, &l) {
+            add("primes-share-a-factor", &n2, &e, &d2, &p2, &q2);
+        }
+        add("primes-share-a-factor-d-unrelated", &n2, &e, &d, &p2, &q2);
+    }
+    // primes that do not multiply to n; exponents at the edges
+    add("primes-do-not-multiply-to-n", &n, &e, &d, &p, &(&q + BigUint::from(2u8)));
+    add("d-is-zero", &n, &e, &zero, &p, &q);
+    add("d-is-one", &n, &e, &one, &p, &q);
+    add("e-is-zero", &n, &zero, &d, &p, &q);
+    add("e-is-one", &n, &one, &d, &p, &q);
+    add("e-is-even", &n, &BigUint::from(65536u32), &d, &p, &q);
+    add("e-is-huge", &n, &(&n - &one), &d, &p, &q);
+    add("n-is-even", &(&n + &one), &e, &d, &p, &q);
+    add("n-is-zero", &zero, &e, &d, &p, &q);
+    add("primes-swapped", &n, &e, &d, &q, &p);
+    out
+}
+
+fn q_times(a: &rsa::BigUint, b: &rsa::BigUint) -> rsa::BigUint {
+    a * b
+}
+
+fn gcd(a: &rsa::BigUint, b: &rsa::BigUint) -> rsa::BigUint {
+    let (mut a, mut b) = (a.clone(), b.clone());
+    let zero = rsa::BigUint::from(0u8);
+    while b != zero {
+        let t = &a % &b;
+        a = b;
+        b = t;
+    }
+    a
+}
+
+fn lcm(a: &rsa::BigUint, b: &rsa::BigUint) -> rsa::BigUint {
+    a / gcd(a, b) * b
+}
+
+/// extended Euclid on non-negative big integers (signed bookkeeping by hand)
+fn mod_inverse(a: &rsa::BigUint, m: &rsa::BigUint) -> Option<rsa::BigUint> {
+    use rsa::BigUint;
+    let zero = BigUint::from(0u8);
+    let one = BigUint::from(1u8);
+    if gcd(a, m) != one {
+        return None;
+    }
+    // (old_r, r), (old_s, s) with signs
+    let (mut old_r, mut r) = (a % m, m.clone());
+    let (mut old_s, mut s) = ((one.clone(), false), (zero.clone(), false)); // (magnitude, negative)
+    while r != zero {
+        let qt = &old_r / &r;
+        let nr = &old_r - &qt * &r;
+        old_r = std::mem::replace(&mut r, nr);
+        // ns = old_s - qt * s
+        let prod = (&qt * &s.0, s.1);
+        let ns = match (old_s.1, prod.1) {
+            (false, true) => (&old_s.0 + &prod.0, false),
+            (true, false) => (&old_s.0 + &prod.0, true),
+            (neg, _) => {
+                if old_s.0 >= prod.0 { (&old_s.0 - &prod.0, neg) } else { (&prod.0 - &old_s.0, !neg) }
+            }
+        };
+        old_s = std::mem::replace(&mut s, ns);
+    }
+    let inv = if old_s.1 { m - (&old_s.0 % m) } else { &old_s.0 % m };
+    Some(inv % m)
+}
